@@ -1487,6 +1487,9 @@ class Staircase(Pbox):
         from .operation import frechet_op, vectorized_cartesian_op
 
         if isinstance(other, Number):
+            if other < 0 and self.lo <= 0 <= self.hi:
+                # x ** c with c < 0 is unbounded on a support containing zero (same rule as the reciprocal)
+                raise ZeroDivisionError("negative power of a p-box whose support contains zero")
             if self.straddles_zero():
                 from pyuncertainnumber import pba
 
